@@ -354,6 +354,65 @@ func c08GdefLimits(r *run.Run) {
 		})
 }
 
+// c08ScriptListLimits: script tables and the script list use 16-bit offsets; many language systems with
+// long feature lists push them beyond 64 KiB.
+func c08ScriptListLimits(r *run.Run) {
+	scripts, langs := gtab.VerifTagTables()
+	var ss, ll []string
+	for k := range scripts {
+		ss = append(ss, k)
+	}
+	for k := range langs {
+		ll = append(ll, k)
+	}
+	sort.Strings(ss)
+	sort.Strings(ll)
+	mk := func(nScripts, nLangs, nFeat int) *gtab.Info {
+		info := &gtab.Info{ScriptList: gtab.ScriptListInfo{}, LookupList: gtab.LookupList{gen.MakeLookup(1, gen.Flags[0], gen.GsubSimple[0].Sub())}}
+		for i := 0; i < max(nFeat, 1); i++ {
+			info.FeatureList = append(info.FeatureList, &gtab.Feature{Tag: fmt.Sprintf("f%03d", i), Lookups: []gtab.LookupIndex{0}})
+		}
+		var opt []gtab.FeatureIndex
+		for i := 0; i < nFeat; i++ {
+			opt = append(opt, gtab.FeatureIndex(i))
+		}
+		for si := 0; si < nScripts; si++ {
+			for li := -1; li < nLangs; li++ {
+				lang := ""
+				if li >= 0 {
+					lang = ll[(li+7*si)%len(ll)]
+				}
+				tag, err := gtab.VerifOtfToBCP47(ss[si], lang)
+				if err != nil {
+					continue
+				}
+				info.ScriptList[tag] = &gtab.Features{Required: 0xFFFF, Optional: opt}
+			}
+		}
+		return info
+	}
+	r.Explore(explore.Config{Name: "C08.script-list-limits", Deadline: r.PartDeadline(0.3)},
+		fmt.Sprintf("script lists at the 16-bit offset limits: one script with all %d languages of the tag table x 0..64 optional features per language system (the script table crosses 64 KiB), one script with 500..%d languages x 56 features, and all %d scripts x 15..40 languages x 1 feature (the script list crosses 64 KiB): the list comes back intact or the encoder refuses loudly", len(ll), len(ll), len(ss)),
+		func(c *explore.Ctx) {
+			var info *gtab.Info
+			var desc string
+			switch c.Choose(3, "family") {
+			case 0:
+				f := c.Choose(65, "optional features")
+				info, desc = mk(1, len(ll), f), fmt.Sprintf("1 script x %d languages x %d features", len(ll), f)
+			case 1:
+				l := 500 + c.Choose(len(ll)-499, "languages")
+				info, desc = mk(1, l, 56), fmt.Sprintf("1 script x %d languages x 56 features", l)
+			default:
+				m := 15 + c.Choose(26, "languages per script")
+				info, desc = mk(len(ss), m, 1), fmt.Sprintf("%d scripts x %d languages x 1 feature", len(ss), m)
+			}
+			c.Sample(func() any { return desc })
+			c.Nontrivial()
+			c08RoundTripOnce(c, "script list limits", info, gtab.TypeGsub, desc)
+		})
+}
+
 func c08Info(tp gtab.Type, ll gtab.LookupList) *gtab.Info {
 	var idx []gtab.LookupIndex
 	for i := range ll {
@@ -1249,6 +1308,7 @@ func init() {
 		c08ListLimits(r)
 		c08FeatureListLimits(r)
 		tagTablesPart(r, "C08.script-tags", "C08.roundtrip")
+		c08ScriptListLimits(r)
 		c08Sizes(r)
 	})
 }
